@@ -276,6 +276,90 @@ fn nontrivial(prop: &str, e: &Exec, st: &mut Stats) -> bool {
     }
 }
 
+/// produces the cases of a shard: either one per index, or (bounded-exhaustive schedule exploration) for each
+/// index a small base case executed under every scheduler script with at most `bound` preemptions
+struct Feeder {
+    indices: std::collections::VecDeque<u64>,
+    explore: bool,
+    cur: Option<(u64, Case)>,
+    stack: Vec<Vec<u8>>,
+    runs: u64,
+    complete: bool,
+    bound: usize,
+    max_runs: u64,
+    fixed_script: Option<Vec<u8>>,
+}
+
+const EXPLORE_DEPTH: usize = 48;
+
+impl Feeder {
+    fn next(&mut self, g: &gen::Gen, prop: &str, seed: u64, st: &mut Stats) -> Option<(u64, Case)> {
+        if !self.explore {
+            loop {
+                let idx = self.indices.pop_front()?;
+                match g.case_at(prop, idx, seed) {
+                    Some(c) => return Some((idx, c)),
+                    None => st.skipped += 1,
+                }
+            }
+        }
+        loop {
+            if let Some((idx, base)) = &self.cur {
+                if self.runs >= self.max_runs && !self.stack.is_empty() {
+                    self.complete = false;
+                    self.stack.clear();
+                }
+                if let Some(script) = self.stack.pop() {
+                    let mut c = base.clone();
+                    c.script = script;
+                    self.runs += 1;
+                    return Some((*idx, c));
+                }
+                // this base case is finished
+                bump(&mut st.extra, "explored_configurations", 1);
+                if self.complete {
+                    bump(&mut st.extra, "explored_configurations_complete_within_bound", 1);
+                }
+                bump(&mut st.extra, "explored_schedules", self.runs);
+                self.cur = None;
+            }
+            let idx = self.indices.pop_front()?;
+            match g.small_case_at(prop, idx, seed) {
+                Some(c) => {
+                    self.cur = Some((idx, c));
+                    self.stack = vec![self.fixed_script.clone().unwrap_or_default()];
+                    self.runs = 0;
+                    self.complete = true;
+                }
+                None => st.skipped += 1,
+            }
+        }
+    }
+
+    fn feedback(&mut self, e: &Exec, _st: &mut Stats) {
+        if !self.explore || self.fixed_script.is_some() || e.case.strategy != Strategy::Script {
+            return;
+        }
+        let d = &e.decisions;
+        let from = e.case.script.len();
+        if d.len() > EXPLORE_DEPTH {
+            self.complete = false;
+        }
+        let taken: Vec<u8> = d.iter().map(|x| x.0).collect();
+        let base_nonzero = taken.iter().take(from).filter(|&&x| x != 0).count();
+        if base_nonzero >= self.bound {
+            return;
+        }
+        for k in from..d.len().min(EXPLORE_DEPTH) {
+            for c in 1..d[k].1 {
+                let mut child = taken[..k].to_vec();
+                child.push(c);
+                self.stack.push(child);
+            }
+        }
+    }
+}
+
 fn main() {
     let args = parse_args();
     let shapes = tables::all_shapes();
@@ -354,17 +438,31 @@ fn run(args: &Args, shapes: &[&'static vhc::ShapeInfo]) {
         (0..total).filter(|i| i % nshards == shard).collect()
     };
     let mut timed_out = false;
-    for idx in indices {
+    let explore = args.flags.contains("explore");
+    let bound = args.num("bound", 2) as usize;
+    let max_runs = args.num("max-runs", 1500);
+    let replay_script: Option<Vec<u8>> = args.kv.get("script").map(|t| {
+        t.split(',').filter(|x| !x.is_empty()).filter_map(|x| x.trim().parse::<u8>().ok()).collect()
+    });
+    let mut feeder = Feeder {
+        indices: indices.into_iter().collect(),
+        explore: explore || replay_script.is_some(),
+        cur: None,
+        stack: vec![],
+        runs: 0,
+        complete: true,
+        bound,
+        max_runs,
+        fixed_script: replay_script,
+    };
+    loop {
         if t0.elapsed().as_secs() > time_limit {
             timed_out = true;
             break;
         }
-        let case = match g.case_at(prop, idx, seed) {
-            Some(c) => c,
-            None => {
-                st.skipped += 1;
-                continue;
-            }
+        let (idx, case) = match feeder.next(&g, prop, seed, &mut st) {
+            Some(x) => x,
+            None => break,
         };
         if !only_mode.is_empty() {
             let m = match case.mode {
@@ -425,6 +523,15 @@ fn run(args: &Args, shapes: &[&'static vhc::ShapeInfo]) {
             }
         }
         st.evaluations += 1;
+        feeder.feedback(&e, &mut st);
+        if e.case.strategy == Strategy::Script && st.evaluations % 61 == 0 {
+            // the exploration relies on runs being reproducible from their script: re-execute and compare
+            let e2 = exec::exec(shapes, case.clone());
+            bump(&mut st.extra, "explore_reproducibility_checks", 1);
+            if e2.decisions != e.decisions || format!("{:?}", e2.obs) != format!("{:?}", e.obs) {
+                bump(&mut st.extra, "explore_reproducibility_mismatches", 1);
+            }
+        }
         st.by_mode[match e.case.mode {
             Mode::S => 0,
             Mode::F => 1,
@@ -437,6 +544,21 @@ fn run(args: &Args, shapes: &[&'static vhc::ShapeInfo]) {
             st.inconclusive += 1;
             if st.inconclusive_msgs.len() < 5 {
                 st.inconclusive_msgs.push(format!("idx {}: {}", idx, verdict.inconclusive.join("; ")));
+            }
+        }
+        {
+            // workers of one run started with different chunk sizes (Min/Auto growth after a lag period)
+            let mut chunks: Vec<u64> = e
+                .events
+                .iter()
+                .flat_map(|(_, _, v)| v.iter())
+                .filter(|x| x.kind == K_WBEGIN)
+                .map(|x| x.a)
+                .collect();
+            chunks.sort();
+            chunks.dedup();
+            if chunks.len() >= 2 && e.runs.len() == 1 {
+                bump(&mut st.extra, "runs_with_mixed_worker_chunk_sizes", 1);
             }
         }
         let sig = e.signature();
@@ -455,7 +577,7 @@ fn run(args: &Args, shapes: &[&'static vhc::ShapeInfo]) {
             if vi.prop == prop {
                 if violations.len() < 200 {
                     violations.push(format!(
-                        "{{\"prop\":{},\"key\":{},\"msg\":{},\"idx\":{},\"seed\":{},\"tier\":{},\"small\":{},\"case\":{},\"mode\":{},\"picks\":{}}}",
+                        "{{\"prop\":{},\"key\":{},\"msg\":{},\"idx\":{},\"seed\":{},\"tier\":{},\"small\":{},\"case\":{},\"mode\":{},\"picks\":{},\"script\":{}}}",
                         jstr(vi.prop),
                         jstr(&vi.key),
                         jstr(&vi.msg),
@@ -465,7 +587,12 @@ fn run(args: &Args, shapes: &[&'static vhc::ShapeInfo]) {
                         small,
                         jstr(&e.case.describe()),
                         jstr(&format!("{:?}", e.case.mode)),
-                        jstr(&format!("{:?}", e.picks.iter().take(400).collect::<Vec<_>>()))
+                        jstr(&format!("{:?}", e.picks.iter().take(400).collect::<Vec<_>>())),
+                        jstr(&if e.case.strategy == Strategy::Script {
+                            format!("explore:{}", e.case.script.iter().map(|x| x.to_string()).collect::<Vec<_>>().join(","))
+                        } else {
+                            String::new()
+                        })
                     ));
                 }
                 if replay {
